@@ -29,6 +29,7 @@ macro_rules! zv_harness {
         $( flags: [ $( $flag:ident ),* $(,)? ], )?
         $( kf: $kf:literal, )?
         $( cap: $cap:literal, )?
+        $( cbmc: $cbmc:literal, )?
         body: $body:block
     ) => {
         #[cfg_attr(kani, kani::proof)]
@@ -40,5 +41,9 @@ macro_rules! zv_harness {
 }
 
 pub mod c13_serial;
-pub mod c20_strings;
+pub mod c20_numeric;
 pub mod kf;
+pub mod c08_concurrent;
+pub mod c16_tokens;
+pub mod c18_tasks;
+pub mod c07_pools;
